@@ -6,12 +6,12 @@ Line: `chk <hex source (ignored here)> <kind> <scrutinee type id> T <n> <def>…
 * kind: `match` | `let` | `iflet`
 * def:  `E <cls> <k> (<variant name> <arity> <type id>…)…` | `S <k> (<field name> <type id>)…` | `P`
 * after the patterns: `G <k> <generic class>… Y <n> <closed type of each id>…` with generic class
-  `E <k> (<name> <arity> gty…)…` | `S <k> (<field> gty)…` and gty `i` | `t` | `c <cls> 0` | `c <cls> 1 gty`
+  `E <k> (<name> <arity> gty…)…` | `S <k> (<field> gty)…` and gty `i` | `t <index>` | `c <cls> <k> gty…`
   (`mono`: the type table is the instantiation of these classes, checked by `monoCheck`)
 * spat: `W` | `I <name id>` | `T <k> p…` | `O <k> (<field name> p)…` | `V <tag> <k> p…` | `R <k> p…`
 Answer: `nonexh=<counterexample or -> useless=<0|1> err=<0|1> panic=<0|1> typed=<0|1> inh=<0|1>`
 (`inh`: a rank certificate for `Inhabited'` of the type table was found and checked by `rankCheck`); variant names are
-printed as `#<id>` (the Python side substitutes the names). `fuel` is printed instead if the fuel ran out. -/
+printed as `#<id>` (the Python side substitutes the names). The model functions run with the fuel `usefulFuel` / `cexFuel`, proved sufficient (`useful_fuel_bound`, `cex_fuel_bound`); `fuel` would be printed if it ran out (cannot happen). -/
 namespace Driver.C07
 open SamVerif.Useful Driver
 
@@ -52,11 +52,10 @@ def parseDef : Toks → Option (Def × Toks)
 
 partial def parseGTy : Toks → Option (GTy × Toks)
   | "i" :: ts => some (.int, ts)
-  | "t" :: ts => some (.tparam, ts)
-  | "c" :: c :: "0" :: ts => do pure (.cls (← c.toNat?) none, ts)
-  | "c" :: c :: "1" :: ts => do
-    let (a, ts) ← parseGTy ts
-    pure (.cls (← c.toNat?) (some a), ts)
+  | "t" :: i :: ts => do pure (.tparam (← i.toNat?), ts)
+  | "c" :: c :: k :: ts => do
+    let (as, ts) ← parseN parseGTy (← k.toNat?) ts
+    pure (.cls (← c.toNat?) as, ts)
   | _ => none
 
 def parseGVariant : Toks → Option ((Nat × List GTy) × Toks)
@@ -118,7 +117,6 @@ def cxOf (defs : List Def) : Cx := fun cls =>
   | some (.enum _ vs) => vs.map (fun v => (v.1, v.2.length))
   | _ => []
 
-def fuel : Nat := 10000000
 
 /-- least-fixpoint search for a rank assignment (untrusted; its result is checked by `rankCheck`) -/
 def rankStep (defs : List Def) (ranks : List (Option Nat)) : List (Option Nat) :=
@@ -157,11 +155,11 @@ def answer (kind : String) (ty : Nat) (defs : List Def) (pats : List SPat) (mono
   let inh := rankCheck defs (computeRanks defs)
   if kind == "iflet" then
     -- main_checker.rs:940-946: useless (irrefutable) iff a wildcard is not useful after the pattern
-    match isAdditionalPatternUsefulF cx fuel aps .wild with
+    match isAdditionalPatternUseful cx aps .wild with
     | none => "fuel"
     | some u => s!"nonexh=- useless={b (!u)} err={b err} panic={b pan} typed={b typed} inh={b inh} mono={b mono}"
   else
-    match incompleteCounterexampleF cx fuel aps with
+    match incompleteCounterexample cx aps with
     | none => "fuel"
     | some none => s!"nonexh=- useless=0 err={b err} panic={b pan} typed={b typed} inh={b inh} mono={b mono}"
     | some (some d) => s!"nonexh={(render d).replace " " "~"} useless=0 err={b err} panic={b pan} typed={b typed} inh={b inh} mono={b mono}"
